@@ -8,7 +8,7 @@ sys.path.insert(0, os.path.dirname(os.path.abspath(__file__)))
 import seedtest as ST
 
 CLONE = "/tmp/verif_seed"
-OUT = "/verif/seeded/REGRESSION.json"
+OUT = os.environ.get("SEED_REGRESSION_OUT", "/verif/seeded/REGRESSION.json")
 
 
 def main():
